@@ -1,0 +1,36 @@
+//go:build verif
+
+// Contracts for package webseed, checked by /verif/govc (see /verif/DESIGN.md).
+// This file contains only comments: it adds no code to any build.
+
+package webseed
+
+//@ use streams
+//@ use net
+//@ use http
+
+// parseContentRange: NOT verified (fmt.Sscanf through pointers to locals is
+// outside the handled subset); callers are verified for arbitrary results.
+//@ func parseContentRange
+//@   trusted
+
+// Get: whatever the server answers, the body handed to the writer is capped
+// at the requested length (so a fetch for one file of a multi-file range can
+// never spill into the bytes of the next file), and the answer is only used
+// when it starts at the requested offset.
+//@ func (*GetRight).Get
+//@   requires ws != nil && ctx != nil && w != nil && length >= 0 && offset >= 0
+//@   modifies heap:github.com/jech/storrent/webseed.*, heap:github.com/jech/storrent/rate.*, heap:github.com/jech/storrent/tor.writer.*, heap:github.com/jech/storrent/tor/piece.*, heap:E:github.com/jech/storrent/tor/piece.*, heap:A:uint8, heap:A:uint32, heap:global:*, heap:time.*, heap:net/*, heap:ghost:*, heap:map:map[string][]string
+//@   assertcall [limited] io.Copy :: lrLeft(reader) <= length && lrLeft(reader) >= 0 && fresh_(reader)
+//@   assertcall [start]   io.Copy :: r.StatusCode == 200 ==> offset == 0
+//@   waive    panic :: start/stop pairing counter of base.mu (count >= 0) is not part of C14
+//@   props    C14
+
+// Hoffman.Get: the body is either announced (and then cut by net/http) at
+// exactly the requested length, or capped at it.
+//@ func (*Hoffman).Get
+//@   requires ws != nil && ctx != nil && w != nil
+//@   modifies heap:github.com/jech/storrent/webseed.*, heap:github.com/jech/storrent/rate.*, heap:github.com/jech/storrent/tor.writer.*, heap:github.com/jech/storrent/tor/piece.*, heap:E:github.com/jech/storrent/tor/piece.*, heap:A:uint8, heap:A:uint32, heap:global:*, heap:time.*, heap:net/*, heap:ghost:*, heap:map:map[string][]string
+//@   assertcall [limited] io.Copy :: l == int64(length) || (lrLeft(reader) == int64(length) && fresh_(reader))
+//@   waive    panic :: start/stop pairing counter of base.mu (count >= 0) is not part of C14
+//@   props    C14
